@@ -249,6 +249,41 @@ def HonestOp (v : Vol) (nowNs : Nat) : Op → Prop
   | .heartbeat => True
   | .reload mtime => v.lm ≤ mtime
 
+/-! ## filer side -/
+
+/-- the chunk's volume TTL covers an entry TTL of `s` seconds (0 minutes = never expires) -/
+def Covers (s : Nat) (c : Chunk) : Prop :=
+  (s = 0 → ttlMinutes c.ttl = 0) ∧ (ttlMinutes c.ttl = 0 ∨ s ≤ 60 * ttlMinutes c.ttl)
+
+/-- every chunk of the entry is covered and was written less than `δ` seconds before the entry's Crtime (or later) -/
+def FGood (δ : Nat) (e : FEntry) : Prop :=
+  ∀ c ∈ e.chunks, Covers e.ttlSec c ∧ e.crtime * nsPerSec < c.appendNs + δ * nsPerSec
+
+def FInv (δ : Nat) (st : FStore) (nowNs : Nat) : Prop :=
+  ∀ ke ∈ st, FGood δ ke.2 ∧ ke.2.crtime * nsPerSec ≤ nowNs
+
+theorem ffind_some (st : FStore) (nowNs k : Nat) (o : FEntry) (h : (ffind st nowNs k).1 = some o) :
+    (∃ kn ∈ st, kn.2 = o) ∧ entryVisible o nowNs = true := by
+  unfold ffind flookup at h
+  cases hf : st.find? (fun x => decide (x.1 = k)) with
+  | none => simp [hf] at h
+  | some kn =>
+    simp only [hf, Option.map_some] at h
+    by_cases hv : entryVisible kn.2 nowNs = true
+    · simp only [hv, if_true] at h
+      have : kn.2 = o := by simpa using h
+      exact ⟨⟨kn, List.mem_of_find?_eq_some hf, this⟩, this ▸ hv⟩
+    · simp [hv] at h
+
+theorem ffind_store_subset (st : FStore) (nowNs k : Nat) : ∀ x ∈ (ffind st nowNs k).2, x ∈ st := by
+  intro x hx
+  unfold ffind at hx
+  split at hx
+  · exact hx
+  · split at hx
+    · exact hx
+    · exact (List.mem_filter.1 hx).1
+
 theorem bridge_minutes (c u : Nat) (hc : c < 256) :
     SwV.Gen.C09.TTL_Minutes c u = (ttlMinutes ⟨c, u⟩ : Nat) := by
   simp only [SwV.Gen.C09.TTL_Minutes, ttlMinutes, SwV.Go.wrapU]
